@@ -13,6 +13,7 @@ COMPONENTS = {
     "xxh": dict(builds=["implrun"], timeout=900),
     "cmp": dict(builds=["implrun"], timeout=1500),
     "hdr": dict(builds=["implrun"], timeout=1500),
+    "lz4c": dict(builds=["implrun"], timeout=1500),
     "pipe": dict(builds=["implrun"], timeout=1500),
     "piper": dict(builds=["implrun_race"], arg="pipe", timeout=1500),
     "ws": dict(builds=["implrun"], timeout=1500),
